@@ -1554,3 +1554,266 @@ Proof. vm_compute. repeat split; auto; discriminate. Qed.
 Example stale_state_reachable :
   stale (final witness_params witness_history) = true.
 Proof. reflexivity. Qed.
+
+(* ================================================================== *)
+(* Part C - the machine's effort IS the loop of Part A                 *)
+(* ================================================================== *)
+Inductive mstep := MAbort | MTry (o : conn_outcome).
+Definition mscript := list (Q * mstep).
+Definition to_wstep (a : cargs) (l : list ns) (m : mstep) : wstep :=
+  match m with MAbort => WAbort | MTry o => WTry (attempt_ok a l o) end.
+Definition to_script (a : cargs) (l : list ns) (ms : mscript) : script :=
+  map (fun x => (fst x, to_wstep a l (snd x))) ms.
+Definition next_r (ms : mscript) : Q := match ms with (r, _) :: _ => r | [] => 0%Q end.
+(* r_{k+1} is drawn at the end of pass k, so the event of pass k carries it *)
+Fixpoint effort_events (ms : mscript) : list event :=
+  match ms with
+  | [] => []
+  | (_, m) :: rest =>
+      (match m with MAbort => Shutdown | MTry o => Timeout 0 o (next_r rest) false end)
+      :: effort_events rest
+  end.
+Definition eff_waits (e : list eff) : list Q :=
+  flat_map (fun x => match x with FWait w => [w] | _ => [] end) e.
+
+Lemma eff_waits_app a b : eff_waits (a ++ b) = eff_waits a ++ eff_waits b.
+Proof. unfold eff_waits. apply flat_map_app. Qed.
+Lemma eff_waits_none e : (forall w, ~ In (FWait w) e) -> eff_waits e = [].
+Proof.
+  induction e as [|x e IH]; intro H; [reflexivity|]. simpl.
+  rewrite IH; [|intros w Hw; apply (H w); right; exact Hw].
+  destruct x; try reflexivity. exfalso. apply (H q). left. reflexivity.
+Qed.
+Lemma connect_eff_no_wait a l e : Forall (connect_eff a l) e -> eff_waits e = [].
+Proof.
+  intro H. apply eff_waits_none. intros w Hw. apply (connect_eff_in _ _ _ _ H) in Hw. exact Hw.
+Qed.
+Lemma passive_no_wait e : Forall (fun x => passive x = true) e -> eff_waits e = [].
+Proof.
+  intro H. apply eff_waits_none. intros w Hw. apply (passive_in _ _ H) in Hw. discriminate.
+Qed.
+Lemma finals_no_wait l : eff_waits (finals l) = [].
+Proof. apply passive_no_wait. apply Forall_finals. Qed.
+
+(* once no task is left, the remaining events of an effort script do nothing to the waits *)
+Lemma idle_step p st ev :
+  Inv p st -> tasks st = [] -> (ev = Shutdown \/ exists o r, ev = Timeout 0 o r false) ->
+  tasks (fst (step p st ev)) = [] /\ eff_waits (snd (step p st ev)) = [].
+Proof.
+  intros HI Hn Hev. pose proof (step_effects p st ev HI) as Hs.
+  destruct Hev as [->|(o & r & ->)]; cbn [step_shape] in Hs.
+  - split.
+    + cbn [step]. destruct (connected st).
+      * pose proof (api_disconnect_spec p st) as Hd. destruct (api_disconnect p st) as [st1 e1].
+        destruct Hd as (Dcore & _). unfold core in Dcore. cbn. congruence.
+      * destruct (is_some (rtask st)); [|exact Hn].
+        pose proof (abort_all_spec p st HI) as Ha. destruct (abort_all p st) as [st1 e1].
+        destruct Ha as (A1 & _). exact A1.
+    + destruct Hs as [Hs|(t & Ht & _)]; [apply passive_no_wait; exact Hs|congruence].
+  - split.
+    + cbn [step]. unfold task_timeout. rewrite Hn. cbn. exact Hn.
+    + destruct Hs as [->|(t & e1 & tl & Ht & _)]; [reflexivity|congruence].
+Qed.
+
+Definition ev_of (m : mstep) (rnext : Q) : event :=
+  match m with MAbort => Shutdown | MTry o => Timeout 0 o rnext false end.
+
+Lemma effort_events_cons r m ms :
+  effort_events ((r, m) :: ms) = ev_of m (next_r ms) :: effort_events ms.
+Proof. reflexivity. Qed.
+
+Lemma idle_run p : forall ms st,
+  Inv p st -> tasks st = [] -> eff_waits (concat (snd (run_from p st (effort_events ms)))) = [].
+Proof.
+  induction ms as [|[r m] ms IH]; intros st HI Hn; [reflexivity|].
+  rewrite effort_events_cons. cbn [run_from].
+  assert (Hev : ev_of m (next_r ms) = Shutdown \/ exists o r, ev_of m (next_r ms) = Timeout 0 o r false).
+  { destruct m; [left; reflexivity|right; eexists; eexists; reflexivity]. }
+  destruct (idle_step p st _ HI Hn Hev) as [H1 H2].
+  pose proof (inv_step p st (ev_of m (next_r ms)) HI) as HI1.
+  destruct (step p st (ev_of m (next_r ms))) as [st1 e1]. cbn [fst snd] in *.
+  specialize (IH st1 HI1 H1). destruct (run_from p st1 (effort_events ms)) as [st2 es].
+  cbn [snd concat] in *. rewrite eff_waits_app, H2, IH. reflexivity.
+Qed.
+
+(* one pass of the loop, on the machine *)
+Lemma effort_step p st t cur m rnext :
+  Inv p st -> tasks st = [t] -> connected st = false -> est st = EDisc -> t_cur t = (cur * 2)%Q ->
+  let st' := fst (step p st (ev_of m rnext)) in
+  let e := snd (step p st (ev_of m rnext)) in
+  args st' = args st /\ cns st' = cns st /\
+  match m with
+  | MAbort => tasks st' = [] /\ eff_waits e = []
+  | MTry o =>
+      match after_attempt p (S (t_count t)) (attempt_ok (args st) (cns st) o) with
+      | DContinue =>
+          tasks st' = [mkTask (t_id t) (S (t_count t)) (cur * 2 * 2)%Q] /\
+          connected st' = false /\ est st' = EDisc /\
+          eff_waits e = [fst (next_wait p (cur * 2)%Q rnext)]
+      | _ => tasks st' = [] /\ eff_waits e = []
+      end
+  end.
+Proof.
+  intros HI Ht Hc He Hcur. cbv zeta.
+  destruct m as [|o]; cbn [ev_of step].
+  - rewrite Hc. pose proof HI as (HT & _). rewrite Ht in HT. destruct HT as (_ & (Hrt & _)).
+    rewrite Hrt. cbn [is_some].
+    pose proof (abort_all_spec p st HI) as Ha. destruct (abort_all p st) as [st1 e1].
+    destruct Ha as (A1 & _ & _ & _ & _ & A6 & A7 & _ & _ & A10). rewrite Ht in A10.
+    destruct A10 as (_ & ->). cbn [fst snd]. repeat split; auto.
+    rewrite eff_waits_app, finals_no_wait. reflexivity.
+  - pose proof (timeout_live_spec p st t o rnext false HI Ht) as Hs.
+    pose proof (do_connect_spec p st (args st) (cns st) o) as Hd.
+    destruct (do_connect p st (args st) (cns st) o) as [[st1 e1] res].
+    destruct Hd as (_ & _ & Da & Dok & Dnok & Ddisc & Dsucc & _ & Doth & Deff).
+    destruct (Da Hc) as (Da1 & Da2).
+    destruct (task_timeout p st 0 o rnext false) as [st' e].
+    destruct Hs as (_ & _ & _ & S4 & S5 & S6). cbn [fst snd].
+    rewrite S4, S5. split; [exact Da1|]. split; [exact Da2|].
+    pose proof (connect_eff_no_wait _ _ _ Deff) as Hw1.
+    destruct (attempt_ok (args st) (cns st) o) eqn:Hok.
+    + rewrite (Dsucc Hc He eq_refl) in S6. cbn [after_attempt].
+      destruct S6 as (T1 & _ & _ & e2 & -> & _ & T4 & _). destruct (T4 eq_refl) as (-> & _).
+      split; [exact T1|]. rewrite !eff_waits_app, Hw1. reflexivity.
+    + assert (Hres : res <> ROk).
+      { intro Hr. destruct (Dok Hr) as (_ & _ & _ & _ & K5 & _). congruence. }
+      assert (Hshape :
+        connected st' = connected st1 /\ est st' = est st1 /\
+        match after_attempt p (S (t_count t)) false with
+        | DGiveUp => tasks st' = [] /\ rcl st' = 0 /\ rtask st' = (if fixed p then None else rtask st) /\
+                     e = e1 ++ finals (cns st1) ++ [FTaskEnd (t_id t) GaveUp]
+        | _ => tasks st' = [mkTask (t_id t) (S (t_count t)) (t_cur t * 2)%Q] /\ rcl st' = 1 /\
+               rtask st' = rtask st /\ e = e1 ++ [FRandom; FWait (fst (next_wait p (t_cur t) rnext))]
+        end).
+      { destruct res; try congruence; exact S6. }
+      destruct Hshape as (C1 & C2 & Hshape).
+      rewrite after_attempt_false in *.
+      destruct (negb (attempts p =? 0)%Z && (attempts p <=? Z.of_nat (S (t_count t)))%Z).
+      * destruct Hshape as (T1 & _ & _ & ->). split; [exact T1|].
+        rewrite !eff_waits_app, Hw1, finals_no_wait. reflexivity.
+      * destruct Hshape as (T1 & _ & _ & ->). rewrite T1, Hcur, C1, C2.
+        rewrite (Dnok Hres Hc), (Ddisc Hres He). repeat split; auto.
+        rewrite eff_waits_app, Hw1. reflexivity.
+Qed.
+
+Lemma waits_nonempty_tl p count cur r w s :
+  waits (fst (reconnect_loop p count cur ((r, w) :: s))) =
+  fst (next_wait p cur r) :: tl (waits (fst (reconnect_loop p count cur ((r, w) :: s)))).
+Proof.
+  rewrite loop_unfold. cbv zeta. destruct w as [|ok]; [reflexivity|].
+  destruct (after_attempt p (S count) ok); try reflexivity.
+  destruct (reconnect_loop p (S count) (cur * 2)%Q s). reflexivity.
+Qed.
+
+Lemma effort_gen p : forall ms st t cur r m,
+  Inv p st -> tasks st = [t] -> connected st = false -> est st = EDisc ->
+  t_cur t = (cur * 2)%Q ->
+  snd (reconnect_loop p (t_count t) cur (to_script (args st) (cns st) ((r, m) :: ms))) <> LRunning ->
+  eff_waits (concat (snd (run_from p st (effort_events ((r, m) :: ms))))) =
+  tl (waits (fst (reconnect_loop p (t_count t) cur (to_script (args st) (cns st) ((r, m) :: ms))))).
+Proof.
+  induction ms as [|[r' m'] ms IH]; intros st t cur r m HI Ht Hc He Hcur Hrun;
+    rewrite effort_events_cons; cbn [run_from];
+    match goal with |- context [step p st (ev_of m (next_r ?l))] =>
+      pose proof (effort_step p st t cur m (next_r l) HI Ht Hc He Hcur) as Hstep;
+      pose proof (inv_step p st (ev_of m (next_r l)) HI) as HI1;
+      cbv zeta in Hstep;
+      destruct (step p st (ev_of m (next_r l))) as [st1 e1]
+    end; cbn [fst snd] in *;
+    destruct Hstep as (Ha & Hn & Hstep).
+  - (* last step of the script *)
+    cbn [effort_events run_from concat snd]. rewrite app_nil_r.
+    cbn [to_script map fst snd] in *. rewrite loop_unfold in *. cbv zeta in *.
+    destruct m as [|o]; cbn [to_wstep] in *.
+    + destruct Hstep as (_ & ->). reflexivity.
+    + destruct (after_attempt p (S (t_count t)) (attempt_ok (args st) (cns st) o)).
+      * destruct Hstep as (_ & ->). reflexivity.
+      * destruct Hstep as (_ & ->). reflexivity.
+      * exfalso. apply Hrun. reflexivity.
+  - cbn [to_script map fst snd] in *. rewrite loop_unfold in *. cbv zeta in *.
+    destruct m as [|o]; cbn [to_wstep] in *.
+    + destruct Hstep as (Ht1 & Hw).
+      pose proof (idle_run p ((r', m') :: ms) st1 HI1 Ht1) as Hidle.
+      destruct (run_from p st1 (effort_events ((r', m') :: ms))) as [st2 es].
+      cbn [snd concat] in *. rewrite eff_waits_app, Hw, Hidle. reflexivity.
+    + destruct (after_attempt p (S (t_count t)) (attempt_ok (args st) (cns st) o)) eqn:Hd.
+      * destruct Hstep as (Ht1 & Hw).
+        pose proof (idle_run p ((r', m') :: ms) st1 HI1 Ht1) as Hidle.
+        destruct (run_from p st1 (effort_events ((r', m') :: ms))) as [st2 es].
+        cbn [snd concat] in *. rewrite eff_waits_app, Hw, Hidle. reflexivity.
+      * destruct Hstep as (Ht1 & Hw).
+        pose proof (idle_run p ((r', m') :: ms) st1 HI1 Ht1) as Hidle.
+        destruct (run_from p st1 (effort_events ((r', m') :: ms))) as [st2 es].
+        cbn [snd concat] in *. rewrite eff_waits_app, Hw, Hidle. reflexivity.
+      * destruct Hstep as (Ht1 & Hc1 & He1 & Hw).
+        specialize (IH st1 (mkTask (t_id t) (S (t_count t)) (cur * 2 * 2)%Q) (cur * 2)%Q r' m'
+                       HI1 Ht1 Hc1 He1 eq_refl).
+        cbn [t_count] in IH. rewrite Ha, Hn in IH.
+        change (map (fun x : Q * mstep => (fst x, to_wstep (args st) (cns st) (snd x))) ms)
+          with (to_script (args st) (cns st) ms) in *.
+        change ((r', to_wstep (args st) (cns st) m') :: to_script (args st) (cns st) ms)
+          with (to_script (args st) (cns st) ((r', m') :: ms)) in *.
+        destruct (reconnect_loop p (S (t_count t)) (cur * 2)%Q
+                    (to_script (args st) (cns st) ((r', m') :: ms))) as [tr o'] eqn:Hrec.
+        cbn [fst snd] in *. specialize (IH Hrun).
+        destruct (run_from p st1 (effort_events ((r', m') :: ms))) as [st2 es].
+        cbn [snd concat] in *. rewrite eff_waits_app, Hw, IH.
+        cbn [waits map fst tl].
+        pose proof (waits_nonempty_tl p (S (t_count t)) (cur * 2)%Q r' (to_wstep (args st) (cns st) m')
+                      (to_script (args st) (cns st) ms)) as Hne.
+        change ((r', to_wstep (args st) (cns st) m') :: to_script (args st) (cns st) ms)
+          with (to_script (args st) (cns st) ((r', m') :: ms)) in Hne.
+        rewrite Hrec in Hne. cbn [fst] in Hne. unfold waits in *. rewrite Hne at 2. reflexivity.
+Qed.
+
+(* the waits a real effort performs are exactly those of the loop function:
+   an accidental loss of a connected client, then the script *)
+Theorem effort_follows_loop p evs r0 m0 ms :
+  let st := final p evs in
+  let sc := to_script (args st) (cns st) ((r0, m0) :: ms) in
+  reconnection p = true -> est st = EConn -> rtask st = None ->
+  snd (handle_reconnect p sc) <> LRunning ->
+  eff_waits (concat (snd (run_from p st (Loss r0 :: effort_events ((r0, m0) :: ms))))) =
+  waits (fst (handle_reconnect p sc)).
+Proof.
+  cbv zeta. pose proof (inv_final p evs) as HI. set (st := final p evs) in *.
+  intros Hrec He Hr Hrun. cbn [run_from].
+  pose proof (inv_step p st (Loss r0) HI) as HI1.
+  assert (Hloss : let st1 := fst (step p st (Loss r0)) in
+            tasks st1 = [mkTask (next_id st) 0 (delay0 p * 2)%Q] /\ connected st1 = false /\
+            est st1 = EDisc /\ args st1 = args st /\ cns st1 = cns st /\
+            eff_waits (snd (step p st (Loss r0))) = [fst (next_wait p (delay0 p) r0)]).
+  { cbn [step]. unfold transport_error. rewrite He.
+    pose proof (hed_spec p st RTransport) as Hh.
+    destruct (handle_eio_disconnect p st RTransport) as [[s1 e1] sp].
+    destruct Hh as (_ & H2 & H3 & _ & _ & H6 & H7 & H8).
+    unfold will_reconnect in H8. rewrite Hrec, He, Hr in H8. cbn in H8.
+    destruct H8 as (-> & _ & _ & e0 & -> & Hp).
+    destruct (inv_tasks p st HI) as [Hn|(t & Hn & (Hrt & _) & _)]; [|congruence].
+    unfold task_start. cbn. rewrite H6, Hn. cbn. repeat split; auto.
+    rewrite !eff_waits_app, (passive_no_wait _ Hp). reflexivity. }
+  cbv zeta in Hloss. destruct (step p st (Loss r0)) as [st1 e1]. cbn [fst snd] in *.
+  destruct Hloss as (Ht1 & Hc1 & He1 & Ha1 & Hn1 & Hw1).
+  pose proof (effort_gen p ms st1 (mkTask (next_id st) 0 (delay0 p * 2)%Q) (delay0 p) r0 m0
+                HI1 Ht1 Hc1 He1 eq_refl) as Hg.
+  cbn [t_count] in Hg. rewrite Ha1, Hn1 in Hg. unfold handle_reconnect in *.
+  specialize (Hg Hrun).
+  destruct (run_from p st1 (effort_events ((r0, m0) :: ms))) as [st2 es].
+  cbn [snd concat] in *. rewrite eff_waits_app, Hw1, Hg.
+  pose proof (waits_nonempty_tl p 0 (delay0 p) r0 (to_wstep (args st) (cns st) m0)
+                (to_script (args st) (cns st) ms)) as Hne.
+  symmetry. exact Hne.
+Qed.
+
+Example effort_example :
+  let p := mkParams true 3 1 5 (1#2) false in
+  let st := final p [Connect (mkArgs 1 1 1 0 1) [0; 1] (OReplies [])] in
+  let ms := [((1#4)%Q, MTry OConnErr); ((1#2)%Q, MTry (OReplies [RAccept; RRefuse]));
+             ((3#4)%Q, MTry (OReplies []))] in
+  let sc := to_script (args st) (cns st) ms in
+  reconnection p = true /\ est st = EConn /\ rtask st = None /\
+  snd (handle_reconnect p sc) = LReconnected /\
+  eff_waits (concat (snd (run_from p st (Loss (1#4) :: effort_events ms)))) =
+  waits (fst (handle_reconnect p sc)) /\
+  List.length (waits (fst (handle_reconnect p sc))) = 3.
+Proof. vm_compute. repeat split. Qed.
